@@ -219,6 +219,17 @@ theorem gibbs {ι : Type} (s : Finset ι) (p q : ι → ℝ) (hp : ∀ i ∈ s, 
     0 ≤ ∑ i ∈ s, p i * Real.logb 2 (p i / q i) :=
   Lemmas.InfoReal.gibbs s p q hp hq hsum hac
 
+example : (∀ i ∈ (Finset.univ : Finset (Fin 2)), (0 : ℝ) ≤ ![1 / 4, 3 / 4] i)
+    ∧ (∀ i ∈ (Finset.univ : Finset (Fin 2)), (0 : ℝ) ≤ ![1 / 2, 1 / 2] i)
+    ∧ ∑ i, (![1 / 2, 1 / 2] i : ℝ) ≤ ∑ i, (![1 / 4, 3 / 4] i : ℝ)
+    ∧ (∀ i ∈ (Finset.univ : Finset (Fin 2)),
+        (![1 / 2, 1 / 2] i : ℝ) = 0 → (![1 / 4, 3 / 4] i : ℝ) = 0) := by
+  refine ⟨?_, ?_, ?_, ?_⟩
+  · intro i _; fin_cases i <;> norm_num
+  · intro i _; fin_cases i <;> norm_num
+  · norm_num [Fin.sum_univ_two]
+  · intro i _; fin_cases i <;> norm_num
+
 section Table
 variable {σ : Type} [DecidableEq σ] (t : Tab (List σ) ℝ) (hnn : ∀ r ∈ t, 0 ≤ r.2)
 include hnn
